@@ -21,6 +21,10 @@ func (c *Coins) ExecLocal(tx *types.Transaction, receipt *types.ReceiptData, ind
 
 func (c *Coins) execLocal(tx *types.Transaction, receipt *types.ReceiptData, index int) (*types.LocalDBSet, error) {
 
+	// a failed transfer moved nothing; block removal (DriverBase.ExecDelLocal) skips such receipts as well
+	if receipt.GetTy() != types.ExecOk {
+		return nil, nil
+	}
 	action := &cty.CoinsAction{}
 	err := types.Decode(tx.Payload, action)
 	if err != nil {
